@@ -176,6 +176,9 @@ class UnionCheck:
             raise MachineryError("negative control MC_Union_dev did not violate OthersKeep")
         rep.extra["negative_control"] = "MC_Union_dev (whole-extent overwrite, finding F27) violates OthersKeep as expected"
 
+        # E3: behaviours chosen by TLC (simulation of the model) stepped through the real union, buffer compared after every step
+        replay_tlc_behaviours(rep, ucases, rnd, 3000 if thorough else 300)
+
         events, rid = [], 0
         sample = ucases if thorough else rnd.sample(ucases, min(len(ucases), 120))
         for c in sample:
@@ -285,3 +288,109 @@ def validate_union(events):
     finally:
         shutil.rmtree(tmp, ignore_errors=True)
     return out, {"tlc_states": states}
+
+
+# ------------------------------------------------------------------------------------------ E3: TLC behaviours replayed on the code
+def parse_tla_tuples(text, tag):
+    """All PrintT tuples <<"tag", ...>> of a TLC output as nested Python lists (ints and strings only)."""
+    out = []
+    i = 0
+    needle = f'<<"{tag}",'
+    alt = f'<< "{tag}",'
+    while True:
+        j = min([p for p in (text.find(needle, i), text.find(alt, i)) if p >= 0], default=-1)
+        if j < 0:
+            return out
+        val, k = _parse_value(text, j)
+        out.append(val)
+        i = k
+
+
+def _parse_value(s, i):
+    while s[i].isspace():
+        i += 1
+    if s.startswith("<<", i):
+        i += 2
+        items = []
+        while True:
+            while s[i].isspace() or s[i] == ",":
+                i += 1
+            if s.startswith(">>", i):
+                return items, i + 2
+            v, i = _parse_value(s, i)
+            items.append(v)
+    if s[i] == '"':
+        j = s.index('"', i + 1)
+        return s[i + 1:j], j + 1
+    j = i
+    while j < len(s) and (s[j].isdigit() or s[j] == "-"):
+        j += 1
+    return int(s[i:j]), j
+
+
+def replay_tlc_behaviours(rep, ucases, rnd, num, depth=6):
+    """Let TLC choose behaviours of the union model (-simulate) and step the real union through them."""
+    import glob
+    import os
+    import re
+    import shutil
+    import tempfile
+
+    from harness import tlc
+    from harness.checks_codec import write_universe
+
+    path = write_universe(ucases)
+    tdir = tempfile.mkdtemp(prefix="simtraces_")
+    try:
+        res = tlc.run(tlc.VERIF + "/gen/Gen_Union.tla", tlc.VERIF + "/gen/Gen_Union.cfg", env={"UNIVERSE_FILE": path}, workers=1,
+                      extra=["-simulate", f"file={tdir}/tr,num={num}", "-depth", str(depth + 1), "-seed", str(rnd.randrange(1 << 30))], timeout=900)
+        files = sorted(glob.glob(tdir + "/tr*"))
+        behaviours = []
+        for f in files:
+            txt = open(f).read()
+            states = []
+            for block in re.split(r"STATE_\d+ ==", txt)[1:]:
+                def seq(name):
+                    m = re.search(r"/\\ " + name + r" = <<([^>]*)>>", block)
+                    return [int(x) for x in m.group(1).replace("\n", " ").split(",") if x.strip()] if m else []
+                def num_(name):
+                    m = re.search(r"/\\ " + name + r" = (-?\d+)", block)
+                    return int(m.group(1)) if m else None
+                m = re.search(r"last = \[[^\]]*\]|/\\ last = (\d+)", block)
+                states.append({"case": num_("case"), "n": num_("n"), "last": num_("last"), "buf": seq("buf"), "alt": seq("alt")})
+            if len(states) >= 2:
+                behaviours.append(states)
+    finally:
+        os.unlink(path)
+        shutil.rmtree(tdir, ignore_errors=True)
+    if not behaviours:
+        raise MachineryError(f"Gen_Union produced no behaviours: {res.error or res.out[-800:]}")
+    nsteps = 0
+    for beh in behaviours:
+        c = ucases[beh[0]["case"] - 1]
+        t, mode = c["type"], c["mode"]
+        cs = codec.load(A.render(t), mode, False)
+        T = getattr(cs, t["name"])
+        u = T(bytes(beh[0]["buf"]))
+        for st in beh[1:]:
+            asg = c["assigns"][st["last"] - 1]
+            try:
+                real_assign(u, t, T, asg["path"], asg["value"])
+            except Exception as e:  # noqa: BLE001
+                rep.violation(f"TLC behaviour step {st['n']}: assignment {asg['path']} raised {type(e).__name__}: {e} :: {A.render(t)[:300]}",
+                              {"kind": "union-replay", "type": t, "mode": mode, "behaviour": beh, "step": st["n"]})
+                break
+            nsteps += 1
+            got = list(u._buf)
+            if got == st["buf"]:
+                continue
+            if got == st["alt"]:
+                rep.known_hit("F27", A.render(t)[:160])
+                break            # the model continues from the specified buffer: the rest of this behaviour is not comparable
+            rep.violation(f"TLC behaviour step {st['n']}: after assigning {asg['path']} the union buffer is {bytes(got).hex()} but the "
+                          f"specification says {bytes(st['buf']).hex()} (known deviation would be {bytes(st['alt']).hex()}) :: {A.render(t)[:300]} mode={mode}",
+                          {"kind": "union-replay", "type": t, "mode": mode, "behaviour": beh, "step": st["n"]})
+            break
+    rep.extra["tlc_behaviours_replayed"] = len(behaviours)
+    rep.extra["tlc_behaviour_steps_replayed"] = nsteps
+    rep.traces += len(behaviours)
